@@ -3,18 +3,22 @@
 # Confirms in a scratch worktree: demo passes without the patch, fails with it, full suite passes with it.
 prop=$1; idx=$2; src=$3; pkg=${4:-.}
 export GOFLAGS=-mod=mod GOPROXY=off GOSUMDB=off GOTOOLCHAIN=local
+# every go test runs in its own network namespace: the suite uses fixed TCP ports and other
+# suites may be running on this machine
+NS="unshare -n sh -c"
+gt() { unshare -n sh -c "ip link set lo up; $*"; }
 dst=/verif/seeded/$prop-m$idx
 mkdir -p $dst
 wt=$(mktemp -d /tmp/cfwt.XXXXXX)
 git -C /repo worktree add -q --detach $wt HEAD || exit 9
 cp $src/demo_test.go $wt/$pkg/zz_demo_test.go
 cd $wt
-base=$(go test -vet=off -count=1 -run '^TestMutantDemo$' -timeout 5m ./$pkg 2>&1 | tail -3 | tr '\n' ' ')
+base=$(gt "go test $DEMO_FLAGS -vet=off -count=1 -run '^TestMutantDemo\$' -timeout 5m ./$pkg" 2>&1 | tail -3 | tr '\n' ' ')
 git apply $src/patch.diff || { echo "patch failed"; cd /; git -C /repo worktree remove --force $wt; exit 9; }
-mut=$(go test -vet=off -count=1 -run '^TestMutantDemo$' -timeout 5m ./$pkg 2>&1 | tail -4 | tr '\n' ' ')
+mut=$(gt "go test $DEMO_FLAGS -vet=off -count=1 -run '^TestMutantDemo\$' -timeout 5m ./$pkg" 2>&1 | tail -4 | tr '\n' ' ')
 rm -f $wt/$pkg/zz_demo_test.go
-suite=$(go test -vet=off -count=1 -timeout 4m ./... 2>&1 | tail -4 | tr '\n' ' ')
-case "$suite" in *FAIL*) sleep 30; suite2=$(go test -vet=off -count=1 -timeout 4m ./... 2>&1 | tail -4 | tr '\n' ' '); suite="first run: $suite ; re-run: $suite2";; esac
+suite=$(gt "go test -vet=off -count=1 -timeout 4m ./..." 2>&1 | tail -4 | tr '\n' ' ')
+case "$suite" in *FAIL*) sleep 30; suite2=$(gt "go test -vet=off -count=1 -timeout 4m ./..." 2>&1 | tail -4 | tr '\n' ' '); suite="first run: $suite ; re-run: $suite2";; esac
 cd /
 git -C /repo worktree remove --force $wt
 cp $src/patch.diff $dst/patch.diff; cp $src/demo_test.go $dst/demo_test.go; cp $src/notes.txt $dst/agent_notes.txt 2>/dev/null
@@ -22,9 +26,10 @@ python3 - "$prop" "$idx" "$base" "$mut" "$suite" "$dst" <<'PY'
 import json,sys
 prop,idx,base,mut,suite,dst=sys.argv[1:7]
 notes=open(dst+'/agent_notes.txt').read() if __import__('os').path.exists(dst+'/agent_notes.txt') else ''
-json.dump({"property":prop,"mutant":int(idx),"needs_to_manifest":notes[:1500],
+valid = base.strip().startswith('ok') and 'FAIL' in mut and 'FAIL' not in suite.split('re-run:')[-1] and 'ok' in suite
+json.dump({"property":prop,"mutant":int(idx),"valid_seeded_change":valid,"needs_to_manifest":notes[:1500],
  "confirmed":{"demo_without_patch":base,"demo_with_patch":mut,"full_suite_with_patch":suite,
  "commands":["go test -vet=off -count=1 -run '^TestMutantDemo$' ./<pkg> (scratch worktree of /repo HEAD, with and without patch.diff)","go test -vet=off -count=1 -timeout 4m ./... (with patch.diff)"]},
  "detected_by":"see DESIGN.md section 10 (filled in after the check run)"}, open(dst+'/meta.json','w'), indent=1)
 PY
-echo "$prop m$idx | base: $base | mut: $mut | suite: $suite"
+echo "$prop m$idx valid=$(python3 -c "import json;print(json.load(open('$dst/meta.json'))['valid_seeded_change'])") | base: $base | mut: $mut | suite: $suite"
